@@ -47,7 +47,8 @@ def run_both(case, method="collect", n=None):
 
     recs = case["recs"]
     path = real_run.write_file("in.csv", recs)
-    mode = "" if case["and"] else "~ logic-mode: OR ~ "
+    settings = ([] if case["and"] else ["logic-mode: OR"]) + ([f"validation-mode: {case['vmode']}"] if case.get("vmode") else [])
+    mode = ("~ " + " ".join(settings) + " ~ ") if settings else ""
     text = f"{mode}${path}[{case['scan']}][{case['match']}]"
     out, p = real_run.run_single(text, method, n, policy=["collect"])
     if "parse_error" in out:
@@ -155,7 +156,8 @@ def case_spec(case):
     res["triggers"] = []
     recs = case["recs"]
     path = real_run.write_file("in.csv", recs)
-    mode = "" if case["and"] else "~ logic-mode: OR ~ "
+    settings = ([] if case["and"] else ["logic-mode: OR"]) + ([f"validation-mode: {case['vmode']}"] if case.get("vmode") else [])
+    mode = ("~ " + " ".join(settings) + " ~ ") if settings else ""
     text = f"{mode}${path}[{case['scan']}][{case['match']}]"
     out, p = real_run.run_single(text, "collect", policy=["collect"])
     if "parse_error" in out or out.get("raised") or out.get("errors") or has_recursion_error(out) or has_cycle(out.get("variables")):
